@@ -23,6 +23,7 @@ from nada_dsl.nada_types import NadaType
 # Wildcard import due to non-zero types
 from nada_dsl.nada_types.scalar_types import *  # pylint: disable=W0614:wildcard-import
 from nada_dsl.source_ref import SourceRef
+from nada_dsl.program_io import Input
 from nada_dsl.errors import (
     IncompatibleTypesError,
     InvalidTypeError,
@@ -519,6 +520,18 @@ class Array(Generic[T], Collection):
         self.child = (
             child if contained_type is not None else getattr(child, "child", None)
         )
+        if (
+            contained_type is None
+            and self.child is not None
+            and not isinstance(self.child, Input)
+        ):
+            # `Array(T(Input(...)), size=n)` declares an array input by typing the input's
+            # record as an array. Any other operation would have its own record (an
+            # addition, a function parameter) overwritten with the array type.
+            raise TypeError(
+                "Array(value, size=...) declares an array input: the value must wrap an "
+                "Input; use Array.new(...) to build an array from values"
+            )
         if self.child is not None:
             self.child.store_in_ast(self.to_mir())
 
